@@ -25,8 +25,23 @@ def main(run):
     n, cases = P.run_pairs(run, 'c2s', rp, ['broadcast'], 1 if quick else 2, rng)
     run.evaluations += n
     _count(run, cases)
-    # triples: the n-ary two-pass fixpoint (TLC, on the model) - forests of three
+    # layer M: the engine's two-cursor walk with per-key cursor table (MergeM.tla) refines Lub; positional pairing is refuted
     from harness.checks import treecfg
+    from harness import tla
+    treecfg.ALPHABETS['MM'] = ('MC_MergeM', ['tuple', 'list', 'dict', 'odict'], [1], [0], [0])
+    for n, flag in ((4 if quick else 6, 'FALSE'), (5, 'TRUE')):
+        mod, cfg = treecfg.cfg('MM', n, 2, 2, ['PInvMergeM'], ns=('',))
+        cfg = cfg.replace('SPECIFICATION Spec', 'SPECIFICATION PSpec').replace('CONSTANTS', 'CONSTANTS\n  PairByPosition = ' + flag)
+        r = run.tlc(f'mergeM-{flag}', mod, cfg, timeout=3000)
+        if flag == 'FALSE' and r.violated:
+            bad = tla.prints(r.out, 'BADPAIR')
+            run.violation({'kind': 'model', 'invariant': r.violated, 'pair': [F.thaw(bad[0][2]), F.thaw(bad[0][3])] if bad else None},
+                          'TLC: the code-shaped broadcast walk (MergeM) does not refine Lub')
+        if flag == 'TRUE':
+            run.extra['positional_pairing_refuted_by_TLC'] = r.violated
+            if r.violated != 'PInvMergeM':
+                run.machinery('vacuity guard: MergeM with PairByPosition=TRUE should violate PInvMergeM')
+    # triples: the n-ary two-pass fixpoint (TLC, on the model) - forests of three
     mod, cfg = treecfg.cfg('A', 3 if quick else 4, 3, 2, ['TripleInv'], ns=('', 'a'))
     r = run.tlc('triples', mod, cfg, timeout=3000)
     if r.violated:
